@@ -569,7 +569,7 @@ func TestCheck(t *testing.T) {
 		}
 
 		// (b) no hint: valid UTF-8 decodes as itself (adversarial for the guesser)
-		c.Rapid("no_hint_utf8", c.N(1200, 12000), func(t *rapid.T) {
+		c.Rapid("no_hint_utf8", c.N(1200, 60000), func(t *rapid.T) {
 			pools := [][]rune{[]rune("ｱｲｳｴｵｶｷｸｹｺﾊﾟ"), []rune("«»¡¿·×÷°±²³µ¶"), []rune("éüñßÆøÅç"), []rune("漢字仮名日本語"), []rune("😀🚀𝄞"), []rune("abcXYZ 019"), []rune("\ufeff "), []rune("дЖλΩ")}
 			n := rapid.IntRange(1, 30).Draw(t, "n")
 			if rapid.Bool().Draw(t, "tiny") {
@@ -656,7 +656,7 @@ func TestCheck(t *testing.T) {
 			}
 		}
 		rng := hx.NewRng(c.Seed("eci-high", 0))
-		for k := 0; k < c.N(2000, 40000); k++ {
+		for k := 0; k < c.N(2000, 200000); k++ {
 			v := 1100 + rng.Intn(999999-1100+1)
 			if k%50 == 0 {
 				v = []int{16383, 16384, 999999, 899, 900, 901, 127, 128}[k/50%8]
